@@ -5,8 +5,9 @@
 //
 // usage: overlaygen -cfg <cfg.json> -out <overlay.json> -work <dir>
 // cfg: {"add": {"<pkg dir rel to /repo>": ["<file rel to /verif/harness>", ...]},
-//       "rewrite": {"<pkg dir>": {"sync":true,"atomic":true,"go":true,"chan":true,"time":true,"files":["a.go"]}},
-//       "replace": {"<file rel to /repo>": "<file rel to /verif/harness>"}}
+//
+//	"rewrite": {"<pkg dir>": {"sync":true,"atomic":true,"go":true,"chan":true,"time":true,"files":["a.go"]}},
+//	"replace": {"<file rel to /repo>": "<file rel to /verif/harness>"}}
 package main
 
 import (
@@ -20,14 +21,16 @@ import (
 )
 
 type rw struct {
-	Sync   bool     `json:"sync"`
-	Atomic bool     `json:"atomic"`
-	Go     bool     `json:"go"`
-	Chan   bool     `json:"chan"`
-	Time   bool     `json:"time"`
-	OS     bool     `json:"os"`
-	Files  []string `json:"files"` // empty = all non-test files
-	Points []point  `json:"points"` // named scheduling points inserted before a statement matching text
+	Sync       bool     `json:"sync"`
+	Atomic     bool     `json:"atomic"`
+	Go         bool     `json:"go"`
+	Chan       bool     `json:"chan"`
+	Time       bool     `json:"time"`
+	OS         bool     `json:"os"`
+	Files      []string `json:"files"`       // empty = all non-test files
+	SyncKeep   []string `json:"sync_keep"`   // struct type names whose sync.* fields stay REAL (leaf locks of caches: invisible to the scheduler)
+	RangeChans []string `json:"range_chans"` // printed expressions of channels ranged over (no type info available)
+	Points     []point  `json:"points"`      // named scheduling points inserted before a statement matching text
 }
 
 type point struct {
